@@ -24,6 +24,20 @@ PROP = dict(
         "float expression math.Ceil(float64(bits)/8) of serializeBoc modelled by the integer (bits+7)/8 (exact: bits <= 64)",
     ],
     assumptions=[
+        "KeyInjOn is DERIVED from CollisionFree only for level-0 tables (mask 0, no pruned branch: "
+        "keyInjOn_of_collisionFree, roundtrip_go_writer_sha); for cells with non-zero level masks it remains a hypothesis, "
+        "and it is FALSE for inconsistent masks even without collisions (a mask-0 parent hashes only the level-0 stored "
+        "hash of a pruned child, so two different children can give equal parent hashes): the Go writer would merge such "
+        "cells; the generators only build consistent masks",
+        "ValidLayout (hypothesis of parse_emit / order_valid / roundtrip_*) includes pruned-branch completeness (a pruned "
+        "branch holds 2+34*popcount(mask) bytes), exotic cells starting with their type byte, depth <= 1024",
+        "serializeBoc's `flags` argument (two header bits: Cell.ToBoc* pass 0, boc.SerializeBoc the caller's value; the "
+        "reader ignores the field; the model and all theorems are for flags = 0) and the capacity "
+        "NewBitString((1023+224)*cells) of the output buffer (ErrBitStingOverflow beyond it) are not modelled",
+        "BocOrder.lean indexes with `[i]!`/`set!` (total): `orderWith = .ok` does not by itself witness the absence of "
+        "index panics in importCell/reorderCells/revisit; that every index used is in range follows from the invariants "
+        "ImpInv / Inv that importCell_spec / revisit_spec prove to hold at every step (refs < size, sizes equal), and from "
+        "the exact tie boc.order/boc.serialize (a Go panic would show as a mismatch)",
         "order_valid / roundtrip_go_writer are about Order.orderWith (lean/TongoModel/BocOrder.lean), the hand model "
         "of importRoots/importCell/reorderCells/revisit: it is tied to the code on every run by exact comparison "
         "(boc.order: the cell order read off Go's bytes by the verified reader; boc.serialize: all 2^3 outputs byte "
@@ -40,8 +54,10 @@ PROP = dict(
     partial=[
         "the two weight passes of reorderCells are modelled exactly and tied by boc.order, but nothing is proved about "
         "them beyond what order_valid needs: it holds for EVERY special predicate, so the passes cannot break it",
-        "canonical (equal structure => equal bytes): not a theorem; checked per input (shared vs unshared build, fresh "
-        "vs reused Hasher, SerializeBoc vs ToBocCustom, all 2^3 option sets byte-identical)",
+        "canonical: serialize_canonical is a theorem about the model (two presentations of the same trees => same bytes); "
+        "the Hasher cache of the Go code (fresh vs reused) is not modelled and is checked per input",
+        "Cell-level statements use the pre-order presentation cellTable (no sharing); that Go pointer graphs correspond "
+        "to table presentations is the modelling convention (rows = *Cell objects), tied by the harness",
         "hash equality after the round trip relies on the hashing model of C02 (root hashes are compared Go vs model "
         "on every parsed input)",
     ],
@@ -56,11 +72,15 @@ PROP = dict(
                "with de-duplication, reorderCells, revisit) succeeds on every valid DAG presentation and, for EVERY "
                "special predicate, yields a valid layout storing each structurally distinct sub-cell exactly once "
                "whose roots unfold to the input trees; roundtrip_go_writer -- hence the whole writer model round-trips "
-               "through the reader for all 2^3 options. Tie: reader model == Go, order model == Go (cell order and all "
+               "through the reader for all 2^3 options; keyInjOn_of_collisionFree / roundtrip_go_writer_sha -- the key "
+               "hypothesis discharged from collision-freedom for level-0 cells; serialize_canonical -- presentation-"
+               "independent bytes; cell_has_presentation / roundtrip_cell -- the statements on Cell trees. Tie: reader model == Go, order model == Go (cell order and all "
                "8 outputs byte for byte), Go writer through the verified reader, Go reader against the reference "
                "writer, on every generated input.",
     level_note="trusted: Lean kernel, hand model of the reader (exactly compared with Go each run), harness, check.py",
-    technique="functional model + structural induction (Lean 4); Hoare triples over an allocation monad; verified "
-              "parser used as oracle for the unmodelled ordering; differential execution Go vs compiled Lean model",
+    technique="functional model + structural induction (Lean 4); Hoare triples over an allocation monad; invariant "
+              "proofs for the import (de-duplication) and revisit state machines for every `special` predicate; lock-step "
+              "simulation of two presentations (canonicity); differential execution Go vs compiled Lean model (reader, "
+              "cell order, all 8 outputs byte for byte), verified parser additionally used as per-input oracle",
     line_timeout="120s",
 )
